@@ -306,7 +306,7 @@ pub fn run_main(property: &str, tier: &str) -> i32 {
                 )),
             }
         }
-        stats.merge(r.stats);
+        stats.absorb(r.stats);
     }
 
     // minimise + persist (one per distinct signature, bounded)
@@ -374,6 +374,15 @@ pub fn run_main(property: &str, tier: &str) -> i32 {
         distinct.put(&name, J::u(stats.set_len(&name)));
     }
     coverage.put("distinct_sets", distinct);
+    coverage.put(
+        "distinct_sets_meaning",
+        J::s(match property {
+            "C11" => "nontrivial: see rule; histories: digest of the complete receiver-side event log of a run (every operation, result and returned payload); arrival_order_patterns: permutation pattern (ranks of the start offsets) of the first 16 accepted fragments of each completed stream; cross_stream_interleavings: sequence of stream numbers (by first appearance) over all fragment deliveries of a run; abstract_pool_states: multiset over the active streams of (number of gaps capped at 7, end known), sampled every 16th delivery and at the end of a run",
+            "C16" => "nontrivial: see rule; c16.parts: distinct (operation kind, part of the multi-part operation resp. call index) pairs in which a fault fired; c16.build_configs: distinct builder stackings (link/vlan/net/transport)",
+            "C06" => "nontrivial: see rule; c06.kind_outcome: distinct (reader kind, outcome class) pairs",
+            _ => "nontrivial: see rule",
+        }),
+    );
     coverage.put(
         "distinct_members_not_recorded",
         J::u(stats.overflow),
